@@ -15,7 +15,7 @@ def run(ctx):
         cases = [ctx.replay["case"]]
     else:
         # larger frame counts / fan-outs of the property's quantifier (1..60 frames, fan-out 1..10), seeded faults
-        for k in range(60 if q else 600):
+        for k in range(60 if q else 3000):
             n = ctx.rng.choice([1, 2, 3, 5, 9, 10, 11, 17, 30, 59, 60])
             fan = ctx.rng.randint(1, 10)
             kind = ctx.rng.choice(["none", "drop", "flip", "swap", "dup", "renumber"])
